@@ -11,7 +11,7 @@
 From Coq Require Import List NArith ZArith Bool Lia Permutation.
 From SK Require Import lib.Tok lib.LGraph model.C03_Model model.C03_Order model.C03_Reactor proof.C03_Proof proof.C03_Glue
                        proof.C03_ExplicitH proof.C03_ExplicitShape proof.C03_Expand proof.C03_Iso proof.C03_Wiring proof.C03_Ord
-                       proof.C03_ReactorProof proof.C03_ReactorSpec.
+                       proof.C03_ReactorProof proof.C03_ReactorSpec proof.C03_Link.
 Import ListNotations.
 Local Open Scope Z_scope.
 
@@ -184,3 +184,108 @@ Proof.
     - destruct (spec_smarts inp); discriminate. }
   exact (its_list_sound inp rc l r gs Er Hwh Hwr Hc Hs g Ig).
 Qed.
+
+(** * the default mode, from the TEMPLATE: the rule glued is [synrule tpl true]; if the template satisfies [tpl_condition]
+    (every stripped hydrogen keeps its number of bonds to the kept heavy atoms, the kept atoms keep the total charge — a
+    condition on the template alone, proof/C03_Spec.v) every graph of its_list conserves every element count incl. hydrogen
+    and the charge, and has the substrate's composition and bonds on its reactant side *)
+From SK Require Import proof.C03_DefaultEnd.
+Theorem its_list_default_mode inp tpl rc l r gs :
+  i_rule inp = synrule tpl true -> synrule tpl true = Some (rc, l, r) ->
+  nodupb (node_ids tpl) = true -> (forall k a, In (k, a) (gnodes tpl) -> a_el (iH a) = a_el (iG a)) ->
+  simple_edgesb (gedges tpl) = true -> tpl_condition tpl ->
+  wf_hostb (i_host inp) = true -> wf_rcb rc = true ->
+  forallb (call_okb (has_XH l) (i_host inp) rc) (i_calls inp) = true ->
+  spec_its inp = Some gs ->
+  forall g, In g gs ->
+    (forall e, elem_count e (fst (its_decompose g)) = elem_count e (snd (its_decompose g))) /\
+    total_charge (fst (its_decompose g)) = total_charge (snd (its_decompose g)) /\
+    (forall e, elem_count e (fst (its_decompose g)) = elem_count e (mol_of_host (i_host inp))) /\
+    total_charge (fst (its_decompose g)) = total_charge (mol_of_host (i_host inp)) /\
+    (forall a b, In a (node_ids (i_host inp)) -> In b (node_ids (i_host inp)) -> bondG g a b = adj (i_host inp) a b).
+Proof.
+  intros Ei Es Hnd Hel Hsi Hc Hwh Hwr Hcalls Hits g Ig. rewrite Es in Ei.
+  destruct (its_list_sound inp rc l r gs Ei Hwh Hwr Hcalls Hits g Ig)
+    as (hb & m & T & tbl & _ & _ & _ & _ & _ & A1 & A2 & A3 & A4 & _).
+  destruct (A4 (default_rule_balanced tpl rc l r Hnd Hel Hsi Es Hc)) as [B1 B2]. auto.
+Qed.
+
+(** * the matcher's contract as hypothesis *)
+Lemma peq_cases a b u v : peq a b u v = true -> (a = u /\ b = v) \/ (a = v /\ b = u).
+Proof.
+  unfold peq. intros H. apply orb_prop in H. destruct H as [H|H]; apply andb_prop in H; destruct H as [H1 H2];
+    apply N.eqb_eq in H1; apply N.eqb_eq in H2; auto.
+Qed.
+
+Theorem match_okb_left host rc l m :
+  edges_closedb rc = true -> left_of_rcb rc l = true -> match_okb host l m = true -> match_rcb host rc m = true.
+Proof.
+  intros Hc Hl H. unfold match_okb in H. unfold match_rcb.
+  apply andb_prop in H. destruct H as [H H5]. apply andb_prop in H. destruct H as [H H4].
+  apply andb_prop in H. destruct H as [H H3]. rewrite H. clear H. cbn [andb].
+  unfold left_of_rcb in Hl. apply andb_prop in Hl. destruct Hl as [Hl L3]. apply andb_prop in Hl. destruct Hl as [L1 L2].
+  apply Nat.eqb_eq in L1. apply Nat.eqb_eq in H3. rewrite <- L1, (proj2 (Nat.eqb_eq _ _) H3). cbn [andb].
+  rewrite forallb_forall in H4, H5, L2, L3.
+  assert (Hn : forall k a, In (k, a) (gnodes rc) -> rc_node_okb host m (k, a) = true).
+  { intros k a I. specialize (L2 _ I). unfold node_same in L2. cbn [fst snd] in L2.
+    destruct (label l k) as [la|] eqn:El; [|discriminate]. unfold label in El. apply assoc_in in El.
+    specialize (H4 _ El). unfold node_okb in H4. unfold rc_node_okb. cbn [fst snd] in *.
+    destruct (mget m k) as [h|]; [|discriminate]. destruct (label host h) as [ha|]; [|discriminate].
+    apply andb_prop in L2. destruct L2 as [L2 Lh]. apply andb_prop in L2. destruct L2 as [Le Lq].
+    apply N.eqb_eq in Le. apply Z.eqb_eq in Lq. apply Z.eqb_eq in Lh. rewrite <- Le, <- Lq, <- Lh. exact H4. }
+  apply andb_true_intro. split.
+  - apply forallb_forall. intros [k a] I. apply Hn. exact I.
+  - apply forallb_forall. intros [[u v] x] I. unfold rc_edge_okb.
+    unfold edges_closedb in Hc. rewrite forallb_forall in Hc. pose proof (Hc _ I) as Hc'. cbn [fst snd] in Hc'.
+    apply andb_prop in Hc'. destruct Hc' as [Hu Hv]. apply mem_spec in Hu, Hv.
+    assert (Hg : forall w, In w (node_ids rc) -> exists h, mget m w = Some h).
+    { intros w Iw. unfold node_ids in Iw. apply in_map_iff in Iw. destruct Iw as ([k a] & <- & Iw).
+      specialize (Hn k a Iw). unfold rc_node_okb in Hn. cbn [fst] in *. destruct (mget m k); [eauto|discriminate]. }
+    destruct (Hg u Hu) as [hu Eu]. destruct (Hg v Hv) as [hv Ev]. rewrite Eu, Ev.
+    destruct (0 <? eG x) eqn:Ep; [|reflexivity].
+    specialize (L3 _ I). unfold edge_same in L3. cbn [fst snd] in L3. rewrite Ep in L3.
+    apply existsb_exists in L3. destruct L3 as ([[a b] o] & If & Hf). cbn [fst snd] in Hf.
+    apply andb_prop in Hf. destruct Hf as [Hp Ho]. apply Z.eqb_eq in Ho. subst o.
+    specialize (H5 _ If). unfold edge_okb in H5.
+    destruct (peq_cases a b u v Hp) as [[-> ->]|[-> ->]].
+    + rewrite Eu, Ev in H5. exact H5.
+    + rewrite Eu, Ev in H5. rewrite adj_sym. exact H5.
+Qed.
+
+Lemma call_okm_okb host rc l c : edges_closedb rc = true -> left_of_rcb rc l = true ->
+  call_okm host l c = true -> call_okb (has_XH l) host rc c = true.
+Proof.
+  intros Hc Hl H. unfold call_okm in H. unfold call_okb. destruct (has_XH l).
+  - destruct (snd c) as [rs|]; [|reflexivity]. cbn zeta in *. apply andb_prop in H. destruct H as [H1 H2]. rewrite H1. cbn [andb].
+    rewrite forallb_forall in H2. apply forallb_forall. intros x Ix. exact (match_okb_left _ rc l x Hc Hl (H2 x Ix)).
+  - exact (match_okb_left host rc l _ Hc Hl H).
+Qed.
+
+Theorem its_list_sound_matcher inp rc l r gs :
+  i_rule inp = Some (rc, l, r) -> matcher_hyps_okb (i_rule inp) (i_host inp) (i_calls inp) = true ->
+  spec_its inp = Some gs -> forall g, In g gs -> instance_of (i_host inp) rc g.
+Proof.
+  intros Er Hh Hs g Ig. rewrite Er in Hh. unfold matcher_hyps_okb in Hh.
+  apply andb_prop in Hh. destruct Hh as [Hh H5]. apply andb_prop in Hh. destruct Hh as [Hh H4].
+  apply andb_prop in Hh. destruct Hh as [Hh H3]. apply andb_prop in Hh. destruct Hh as [H1 H2].
+  apply (its_list_sound inp rc l r gs Er H1 H2); [|exact Hs|exact Ig].
+  rewrite forallb_forall in H5. apply forallb_forall. intros c Ic. exact (call_okm_okb _ rc l c H3 H4 (H5 c Ic)).
+Qed.
+
+(** [left_of_rcb] holds by construction in the implicit-template mode (the rule is the template, its left graph the
+    template's reactant side); in the default mode it is evaluated on every scripted case *)
+Lemma left_of_rcb_dec tpl : NoDup (node_ids tpl) -> left_of_rcb tpl (fst (its_decompose tpl)) = true.
+Proof.
+  intros Hnd. unfold left_of_rcb, its_decompose, dec_side. cbn [fst gnodes gedges]. rewrite map_length, Nat.eqb_refl. cbn [andb].
+  apply andb_true_intro. split.
+  - apply forallb_forall. intros [k a] I. unfold node_same, label. cbn [fst snd gnodes].
+    rewrite (assoc_nodup_in k _ (dec_node (iG a))).
+    + cbn [dec_node m_el m_ch m_hc]. rewrite N.eqb_refl, !Z.eqb_refl. reflexivity.
+    + rewrite map_map. cbn [fst]. exact Hnd.
+    + apply in_map_iff. exists (k, a). split; [reflexivity|exact I].
+  - apply forallb_forall. intros [[u v] x] I. unfold edge_same. cbn [fst snd gedges]. destruct (0 <? eG x) eqn:Ep; [|reflexivity].
+    apply existsb_exists. exists (u, v, eG x). split.
+    + apply in_flat_map. exists (u, v, x). split; [exact I|]. rewrite Ep. left. reflexivity.
+    + cbn [fst snd]. unfold peq. rewrite !N.eqb_refl, Z.eqb_refl. reflexivity.
+Qed.
+
